@@ -1,3 +1,4 @@
+CONSTANT EchoCheck = TRUE
 INIT Init
 NEXT Next
 INVARIANTS Completeness FailClosed CamGated Agreement StatusFails SelectInv Emit
